@@ -4,6 +4,12 @@
       on the implementation's pre and post states (PROPFAIL),
   (2) recomputes the post state with the L1 model, random draws inferred from the observed
       difference and checked for validity, and compares exactly (MISMATCH).
+  Verdict policy: every quantity that a property STATEMENT defines for the inputs of the line is
+  judged by its definitional predicate on the observed pre / post states, one PROPFAIL per property
+  whose statement contains the sentence, joined by " ;; " (all failing predicates, not only the
+  first). MISMATCH is kept for what no property states: which cohort / individual a random draw
+  takes, generator call counts, the moment the suitable-cell list is extended, cells outside the
+  list, states outside the properties' domain (inconsistent cells, negative requests).
   Protocol (all cells of the landscape are listed on every line, row-major):
     hp.begin <SI|SEI> <latency> <rows> <cols>
     hp.state | <cells> | <suitable>
@@ -107,6 +113,12 @@ def invariants (pre post : List Cell) (cls : Nat → Ledger) (exemptMort : Bool)
   ].filterMap id
   if verdicts.isEmpty then none else some (" ;; ".intercalate verdicts)
 
+/-- All verdicts that are present, joined (one per property predicate that fails). -/
+def joinVs (l : List (Option String)) : Option String :=
+  match l.filterMap id with
+  | [] => none
+  | vs => some (" ;; ".intercalate vs)
+
 def firstDiff (exp obs : List Cell) : Option String :=
   let rec go (k : Nat) : List Cell → List Cell → Option String
     | a :: as, b :: bs => if a == b then go (k + 1) as bs else some s!"cell={k} model={showCell a} observed={showCell b}"
@@ -154,49 +166,102 @@ def ratsFor (st : State) (toks : List String) : Option (List Rat) := do
   if l.length = st.rows * st.cols then some l else none
 
 
-/-- Checks of one host move (C01 ledger, C02, C03, C17 amount and suitability, exact replay with
-    inferred draws). `ret` is the returned count when the caller observes it. -/
-def checkMove (st : State) (pre post : List Cell) (obsSuit : List (Int × Int))
-    (r1 c1 r2 c2 cnt : Int) (ret : Option String) : String :=
+/-- Property verdicts of one host move that only need the cells (C01 ledger, C02, C03, C05, C17 amount,
+    C17 / C02 draw without replacement, C17 class and cohort membership) - every failing predicate is
+    reported, not only the first. `ret` is the returned count when the caller observes it. -/
+def moveCellVerdicts (st : State) (pre post : List Cell) (r1 c1 r2 c2 cnt : Int) (ret : Option String) : List String :=
   let a := idx st r1 c1
   let b := idx st r2 c2
   let src := pre[a]!
   let dst := pre[b]!
   let src' := post[a]!
   let dst' := post[b]!
-  -- target joins the suitable cells when it had no host before
-  let expSuit := if dst.th == 0 && !(st.suit.contains (r2, c2)) then st.suit ++ [(r2, c2)] else st.suit
+  let amount := min cnt src.hosts
+  let retV : List (Option String) := [
+    if src.consistent && ret.isSome && ret != some (toString amount) then
+      some s!"PROPFAIL C17 move_amount ret={ret} expected={amount}" else none,
+    -- C02: hosts taken out of a cell never exceed what the cell contained
+    match ret.bind parseInt? with
+    | some k => if src.consistent && decide (k > src.hosts) then some s!"PROPFAIL C02 taken_le_present move ret={k} present={src.hosts}" else none
+    | none => none]
+  let others := (List.range pre.length).all fun k => k == a || k == b || pre[k]! == post[k]!
+  let othersV := if !others then some "PROPFAIL C17 move_touched_other_cells" else none
   if a == b then
-    (if post == pre then (if obsSuit == expSuit then "ok" else "MISMATCH hp.move suitable") else "MISMATCH hp.move same-cell changed")
+    -- a move from a cell to itself relocates nothing: every class and cohort count stays
+    ([othersV,
+      if !(decide (src'.hosts = src.hosts) && decide (src'.died = src.died)) then
+        some s!"PROPFAIL C01 move_ledger same cell pre={showCell src} post={showCell src'}" else none,
+      if src.nonNeg && !src'.nonNeg then some s!"PROPFAIL C02 nonneg move same cell post={showCell src'}" else none,
+      if src.totalsOK && !src'.totalsOK then some s!"PROPFAIL C03 totals move same cell pre={showCell src} post={showCell src'}" else none,
+      if src.mortOK && src.totalsOK && src'.totalsOK && !src'.mortOK then some s!"PROPFAIL C03 mortality_cohorts move same cell post={showCell src'}" else none,
+      if src' != src then some s!"PROPFAIL C17 move_same_cell_changed pre={showCell src} post={showCell src'}" else none] ++ retV).filterMap id
   else
-    let others := (List.range pre.length).all fun k => k == a || k == b || pre[k]! == post[k]!
-    if !others then "PROPFAIL C17 move_touched_other_cells"
-    else if !(moveLedgerOK src dst src' dst') then
-      s!"PROPFAIL C01 move_ledger src={showCell src} dst={showCell dst} src'={showCell src'} dst'={showCell dst'}"
-    else if src.nonNeg && dst.nonNeg && !(src'.nonNeg && dst'.nonNeg) then
-      s!"PROPFAIL C02 nonneg move src'={showCell src'} dst'={showCell dst'}"
-    else if src.totalsOK && dst.totalsOK && !(src'.totalsOK && dst'.totalsOK) then
-      s!"PROPFAIL C03 totals move src'={showCell src'} dst'={showCell dst'}"
-    else if src.mortOK && dst.mortOK && src.totalsOK && !(src'.mortOK && dst'.mortOK) then
-      s!"PROPFAIL C03 mortality_cohorts move src'={showCell src'} dst'={showCell dst'}"
-    else if src.consistent && ret.isSome && ret != some (toString (min cnt src.hosts)) then
-      s!"PROPFAIL C17 move_amount ret={ret} expected={min cnt src.hosts}"
-    else if src.consistent && decide (src.hosts - src'.hosts ≠ min cnt src.hosts) then
-      s!"PROPFAIL C17 move_amount hosts_left={src.hosts - src'.hosts}"
-    else if src.consistent && !(obsSuit.contains (r2, c2)) && decide (min cnt src.hosts > 0) then
-      "PROPFAIL C17 target_not_suitable"
+    let totalsBroke := src.totalsOK && dst.totalsOK && !(src'.totalsOK && dst'.totalsOK)
+    let inDom := src.nonNeg && dst.nonNeg && src.totalsOK && src.e.length == dst.e.length && src.mort.length == dst.mort.length
+    ([othersV,
+      if !(moveLedgerOK src dst src' dst') then
+        some s!"PROPFAIL C01 move_ledger src={showCell src} dst={showCell dst} src'={showCell src'} dst'={showCell dst'}" else none,
+      if src.nonNeg && dst.nonNeg && !(src'.nonNeg && dst'.nonNeg) then
+        some s!"PROPFAIL C02 nonneg move src'={showCell src'} dst'={showCell dst'}" else none,
+      if totalsBroke then some s!"PROPFAIL C03 totals move src'={showCell src'} dst'={showCell dst'}" else none,
+      -- C05: hosts move together with their cohort membership; an exposed host without a cohort never matures
+      if totalsBroke && !(decide (src'.te = sumL src'.e) && decide (dst'.te = sumL dst'.e)) then
+        some s!"PROPFAIL C05 exposed_host_without_cohort move src'={showCell src'} dst'={showCell dst'}" else none,
+      if !totalsBroke && src.mortOK && dst.mortOK && src.totalsOK && !(src'.mortOK && dst'.mortOK) then
+        some s!"PROPFAIL C03 mortality_cohorts move src'={showCell src'} dst'={showCell dst'}" else none] ++ retV ++ [
+      if src.consistent && decide (src.hosts - src'.hosts ≠ amount) then
+        some (s!"PROPFAIL C17 move_amount hosts_left={src.hosts - src'.hosts} expected={amount}" ++
+          (if decide (src.hosts - src'.hosts > src.hosts) then s!" ;; PROPFAIL C02 taken_le_present move hosts_left={src.hosts - src'.hosts} present={src.hosts}" else ""))
+      else none,
+      -- C17: drawn without replacement from the source's classes (C02: never more than the class held)
+      if inDom && !(moveDrawnFromSource src src') then
+        some s!"PROPFAIL C17 move_drawn_from_source src={showCell src} src'={showCell src'}" else none,
+      -- C17: with their class and cohort membership, to the destination (conclusion of C17_movement_amount)
+      if inDom && !(moveMembershipOK src dst src' dst') then
+        some s!"PROPFAIL C17 move_membership src={showCell src} dst={showCell dst} src'={showCell src'} dst'={showCell dst'}" else none]).filterMap id
+
+/-- C17 on the suitable-cell list after one host move: the destination joins the list (once). -/
+def moveSuitVerdicts (st : State) (pre : List Cell) (obsSuit : List (Int × Int)) (r1 c1 r2 c2 cnt : Int) : List String :=
+  let a := idx st r1 c1
+  let b := idx st r2 c2
+  let src := pre[a]!
+  ([if a != b && src.consistent && !(obsSuit.contains (r2, c2)) && decide (min cnt src.hosts > 0) then
+      some "PROPFAIL C17 target_not_suitable" else none,
+    -- nothing but the destination joins, and it is not listed twice
+    if !(obsSuit == st.suit || (obsSuit == st.suit ++ [(r2, c2)] && !(st.suit.contains (r2, c2)))) then
+      some s!"PROPFAIL C17 suitable_list before={st.suit} after={obsSuit} destination={r2},{c2}" else none]).filterMap id
+
+/-- Exact replay of one host move with the draws inferred from the observed difference; what is left
+    to it after the property verdicts is which individuals a random draw takes (implementation detail)
+    and WHEN the list is extended (the code appends only when the target held no host). -/
+def moveReplay (st : State) (pre post : List Cell) (obsSuit : List (Int × Int))
+    (r1 c1 r2 c2 cnt : Int) (ret : Option String) : String :=
+  let a := idx st r1 c1
+  let b := idx st r2 c2
+  let src := pre[a]!
+  let dst := pre[b]!
+  let src' := post[a]!
+  let expSuit := if dst.th == 0 && !(st.suit.contains (r2, c2)) then st.suit ++ [(r2, c2)] else st.suit
+  if a == b then (if obsSuit == expSuit then "ok" else "MISMATCH hp.move suitable")
+  else
+    let d : ClassDraw := { i := src.i - src'.i, s := src.s - src'.s, e := src.te - src'.te, r := src.r - src'.r }
+    let drawE := subL src.e src'.e
+    let drawM := subL src.mort src'.mort
+    if !(validClassDrawB src cnt d) then s!"MISMATCH hp.move class-draw-invalid i={d.i} s={d.s} e={d.e} r={d.r}"
+    else if d.e > 0 && !(validDrawB src.e d.e drawE) then "MISMATCH hp.move exposed-draw-invalid"
+    else if d.i > 0 && !(validDrawB src.mort d.i drawM) then "MISMATCH hp.move mortality-draw-invalid"
     else
-      let d : ClassDraw := { i := src.i - src'.i, s := src.s - src'.s, e := src.te - src'.te, r := src.r - src'.r }
-      let drawE := subL src.e src'.e
-      let drawM := subL src.mort src'.mort
-      if !(validClassDrawB src cnt d) then s!"MISMATCH hp.move class-draw-invalid i={d.i} s={d.s} e={d.e} r={d.r}"
-      else if d.e > 0 && !(validDrawB src.e d.e drawE) then "MISMATCH hp.move exposed-draw-invalid"
-      else if d.i > 0 && !(validDrawB src.mort d.i drawM) then "MISMATCH hp.move mortality-draw-invalid"
-      else
-        let (ms, md, moved) := moveHosts src dst cnt d drawE drawM
-        if ret.isSome && ret != some (toString moved) then s!"MISMATCH hp.move ret model={moved}"
-        else if obsSuit != expSuit then "MISMATCH hp.move suitable"
-        else cmpCells "hp.move" ((pre.set a ms).set b md) post
+      let (ms, md, moved) := moveHosts src dst cnt d drawE drawM
+      if ret.isSome && ret != some (toString moved) then s!"MISMATCH hp.move ret model={moved}"
+      else if obsSuit != expSuit then "MISMATCH hp.move suitable"
+      else cmpCells "hp.move" ((pre.set a ms).set b md) post
+
+/-- Checks of one host move: property verdicts first (all that fail), exact replay when none fails. -/
+def checkMove (st : State) (pre post : List Cell) (obsSuit : List (Int × Int))
+    (r1 c1 r2 c2 cnt : Int) (ret : Option String) : String :=
+  match moveCellVerdicts st pre post r1 c1 r2 c2 cnt ret ++ moveSuitVerdicts st pre obsSuit r1 c1 r2 c2 cnt with
+  | [] => moveReplay st pre post obsSuit r1 c1 r2 c2 cnt ret
+  | vs => " ;; ".intercalate vs
 
 /-- Step inputs with neutral defaults; the handlers fill in the fields of the action they replay. -/
 def baseInputs (st : State) : StepInputs :=
@@ -270,13 +335,41 @@ def planVerdict (st : State) (stepTok : String) (obsToks : List String) : State 
           let iffOK := documentedOrder.all fun k => obsKinds.contains k == st.cfg.runs step k
           let idxOK := observed.all fun (k, i) => match st.cfg.inputIndex step k with | some j => i == (j : Int) | none => true
           let treatDue := st.cfg.useTreatments && st.treats.any fun t => t.1.eventAt step != .nothing
-          if treatDue && !(obsKinds.contains .treatments) then (st, s!"PROPFAIL C10 treatment_not_applied_at_its_step step={step} trace={tr}")
-          else if !orderOK then (st, s!"PROPFAIL C09 order step={step} trace={tr}")
-          else if !iffOK then (st, s!"PROPFAIL C09 enabled_and_scheduled step={step} trace={tr} expected={expKinds.map ActionKind.name}")
-          else if !idxOK then (st, s!"PROPFAIL C09 input_index step={step} trace={tr}")
-          else if obsKinds != expKinds then (st, s!"MISMATCH hp.plan model={expKinds.map ActionKind.name}")
-          else (st, "ok")
+          -- one verdict per property: a due treatment that did not run is C10's sentence, the trace is C09's
+          let c10 : Option String :=
+            if treatDue && !(obsKinds.contains .treatments) then some s!"PROPFAIL C10 treatment_not_applied_at_its_step step={step} trace={tr}" else none
+          let c09 : Option String :=
+            if !orderOK then some s!"PROPFAIL C09 order step={step} trace={tr}"
+            else if !iffOK then some s!"PROPFAIL C09 enabled_and_scheduled step={step} trace={tr} expected={expKinds.map ActionKind.name}"
+            else if !idxOK then some s!"PROPFAIL C09 input_index step={step} trace={tr}"
+            else none
+          match joinVs [c10, c09] with
+          | some v => (st, v)
+          | none =>
+            -- unreachable once the three C09 predicates hold (they determine the kinds); kept as a guard of `plan`
+            if obsKinds != expKinds then (st, s!"MISMATCH hp.plan model={expKinds.map ActionKind.name}")
+            else (st, "ok")
     | _, _ => (st, "BADLINE")
+
+/-- All orders of a short list (fuel = its length). -/
+def permsFuel {α : Type} : Nat → List α → List (List α)
+  | 0, _ => [[]]
+  | _, [] => [[]]
+  | n + 1, l => (List.range l.length).flatMap fun i =>
+      match l[i]? with
+      | some x => (permsFuel n (l.eraseIdx i)).map (x :: ·)
+      | none => []
+
+/-- The effect of one due treatment event on the landscape (the model of `Treatments::manage` for one entry). -/
+def applyTreatEvent (st : State) (cells : List Cell) (t : TreatSpec × TreatApp × List Rat) (ev : TreatEvent) : List Cell :=
+  let (spec, app, coefs) := t
+  match ev with
+  | .nothing => cells
+  | .apply =>
+    mapSuit { st with cells := cells } fun k cell =>
+      let r := if spec.pesticide then cell.pesticideTreat coefs[k]! app else cell.simpleTreat coefs[k]! app
+      match r with | .ok c' => c' | .error _ => cell
+  | .finish => mapSuit { st with cells := cells } fun k cell => cell.pesticideEnd coefs[k]!
 
 def handle (st : State) (cmd : String) (inp obsToks : List String) : State × String :=
   match cmd, inp with
@@ -327,6 +420,11 @@ def handle (st : State) (cmd : String) (inp obsToks : List String) : State × St
         let st' := { st with soil := post }
         if post.any (· < 0) then (st', "PROPFAIL C02 nonneg soil_cohorts")
         else if sumL post - sumL st.soil > us.length || sumL post < sumL st.soil then (st', s!"PROPFAIL C04 soil_share stored={sumL post - sumL st.soil} sent={us.length}")
+        -- C04 (ageing out after the configured number of steps): what is stored enters the YOUNGEST cohort,
+        -- an older cohort would age out early
+        else if post.dropLast != st.soil.dropLast then (st', s!"PROPFAIL C04 soil_stored_in_youngest_cohort before={st.soil} after={post}")
+        -- how many of the dispersers sent establish in the soil (tester below the weather coefficient) is
+        -- stated by no property (C12's rule is about host cells): model comparison only
         else (st', if exp == post then "ok" else s!"MISMATCH hp.soil.to model={exp}")
       | none => (st, "BADLINE")
     | _, _, _, _ => (st, "BADLINE")
@@ -345,7 +443,9 @@ def handle (st : State) (cmd : String) (inp obsToks : List String) : State × St
         else if ret > total then
           (st', if det == "0" then s!"KNOWN C02 F22 released={ret} stored={total}" else s!"PROPFAIL C02 taken_le_present soil released={ret} stored={total}")
         else if det == "1" && ret != soilReleaseDet pre w then (st', s!"PROPFAIL C04 soil_release_det ret={ret} expected={soilReleaseDet pre w}")
-        else if !(validDrawB pre ret draw) then (st', s!"MISMATCH hp.soil.from draw-invalid draw={draw} n={ret}")
+        -- C04 (accounted for exactly once): the dispersers released are exactly what the cohorts lose, and no
+        -- cohort grows (here 0 <= ret <= stored and no cohort is negative, so an invalid draw is an accounting error)
+        else if !(validDrawB pre ret draw) then (st', s!"PROPFAIL C04 soil_release_accounted released={ret} cohorts_before={pre} after={post}")
         else (st', if soilRelease pre draw == post then "ok" else "MISMATCH hp.soil.from")
       | _, _ => (st, "BADLINE")
     | _, _ => (st, "BADLINE")
@@ -442,10 +542,24 @@ def handle (st : State) (cmd : String) (inp obsToks : List String) : State × St
         match parseInt? r, parseInt? c, o.ret with
         | some r, some c, [ret] =>
           let k := idx st r c
-          match invariants pre post reclass false noSkip with
+          let a := pre[k]!; let b := post[k]!
+          -- C04 / C12 on the observed result: an accepted disperser turns exactly one susceptible host of the
+          -- cell into an infected (SI) / exposed (SEI) host, a refused one changes nothing; never without a
+          -- susceptible host
+          let spec : Option String :=
+            match parseInt? ret with
+            | none => none
+            | some res => joinVs [
+                if decide (a.s ≤ 0) && res != 0 then some s!"PROPFAIL C12 established_without_susceptible cell={k} ret={res} pre={showCell a}" else none,
+                if (res == 0 || res == 1) && !(landingSpec st.mt a b res) then
+                  some s!"PROPFAIL C04 landing cell={k} ret={res} pre={showCell a} post={showCell b}" else none,
+                if st.mt == .sei && res == 1 && !a.e.isEmpty && !(arrivalsStayExposed a b) then
+                  some s!"PROPFAIL C05 arrival_not_exposed cell={k} pre={showCell a} post={showCell b}" else none]
+          match joinVs [invariants pre post reclass false noSkip, spec] with
           | some v => finish st o v
           | none =>
-            let (c', res) := (pre[k]!).addDisperserAt st.mt
+            let (c', res) := a.addDisperserAt st.mt
+            -- whether the primitive accepts when a susceptible host is present is its contract, not a property
             if toString res ≠ ret then finish st o s!"MISMATCH hp.add ret model={res}"
             else finish st o (cmpCells cmd (pre.set k c') post)
         | _, _, _ => (st, "BADLINE")
@@ -467,19 +581,22 @@ def handle (st : State) (cmd : String) (inp obsToks : List String) : State × St
                 -- C16/C12: suitability outside [0,1] must be rejected, anything else must not throw
                 (st, s!"MISMATCH hp.dispto model=ok observed={ret}")
             else
-              match invariants pre post reclass false noSkip with
-              | some v => finish st o v
-              | none =>
                 match parseInt? ret with
                 | none => (st, "BADLINE")
                 | some res =>
                   -- property predicates on the observed result (domain: N > 0, factors in [0,1])
                   let inDomain := decide (n > 0) && decide (cell.s ≤ n)
-                  if inDomain && !(establishSpec cell env sto pEst u res) then
-                    finish st o s!"PROPFAIL C12 establish_event s={cell.s} N={n} ret={res}"
-                  else if !(landingSpec st.mt cell (post[k]!) res) then
-                    finish st o s!"PROPFAIL C04 landing cell={k} ret={res} pre={showCell cell} post={showCell (post[k]!)}"
-                  else
+                  let spec := joinVs [
+                    invariants pre post reclass false noSkip,
+                    if inDomain && !(establishSpec cell env sto pEst u res) then
+                      some s!"PROPFAIL C12 establish_event s={cell.s} N={n} ret={res}" else none,
+                    if !(landingSpec st.mt cell (post[k]!) res) then
+                      some s!"PROPFAIL C04 landing cell={k} ret={res} pre={showCell cell} post={showCell (post[k]!)}" else none,
+                    if st.mt == .sei && res == 1 && !cell.e.isEmpty && !(arrivalsStayExposed cell (post[k]!)) then
+                      some s!"PROPFAIL C05 arrival_not_exposed cell={k} pre={showCell cell} post={showCell (post[k]!)}" else none]
+                  match spec with
+                  | some v => finish st o v
+                  | none =>
                     match model with
                     | .error e => finish st o s!"MISMATCH hp.dispto model={errTok e}"
                     | .ok (c', mres, _) =>
@@ -495,6 +612,9 @@ def handle (st : State) (cmd : String) (inp obsToks : List String) : State × St
           let m := cell.dispersersFromDet lam
           if cell.i ≤ 0 && ret ≠ "0" then finish st o "PROPFAIL C04 dispersers_without_infection"
           else if post != pre then finish st o "PROPFAIL C04 generation_changed_hosts"
+          -- C04: with stochastic generation off the cell produces round(infected x rate x weather) (C04_generation)
+          else if toString m ≠ ret && (parseInt? ret).isSome then
+            finish st o s!"PROPFAIL C04 deterministic_count cell={idx st r c} dispersers={ret} expected={m} infected={cell.i} lambda={lam}"
           else finish st o (if toString m = ret then "ok" else s!"MISMATCH hp.dispfrom model={m}")
         | _, _, _, _ => (st, "BADLINE")
       -- pests_from / pests_to r c k  (overpopulation primitives; mortality cohorts exempt)
@@ -502,7 +622,18 @@ def handle (st : State) (cmd : String) (inp obsToks : List String) : State × St
         match parseInt? r, parseInt? c, parseInt? kk, o.ret with
         | some r, some c, some kk, [ret] =>
           let k := idx st r c
-          match invariants pre post reclass true noSkip with
+          let a := pre[k]!; let b := post[k]!
+          -- C17 (C17_leaving): the pests that leave are the count asked for (never more than the infected
+          -- present, C02) and the source's infected turn susceptible
+          let leaving : Option String :=
+            if decide (0 ≤ kk) && decide (kk ≤ a.i) then joinVs [
+              if ret ≠ toString kk || b.i != a.i - kk || b.s != a.s + kk then
+                some s!"PROPFAIL C17 source_infected_turn_susceptible cell={k} count={kk} ret={ret} pre={showCell a} post={showCell b}" else none,
+              match parseInt? ret with
+              | some r => if decide (r > a.i) then some s!"PROPFAIL C02 taken_le_present pests_from ret={r} infected={a.i}" else none
+              | none => none]
+            else none
+          match joinVs [invariants pre post reclass true noSkip, leaving] with
           | some v => finish st o v
           | none =>
             let (c', res) := (pre[k]!).pestsFrom kk
@@ -555,10 +686,7 @@ def handle (st : State) (cmd : String) (inp obsToks : List String) : State × St
             let ok := (List.range pre.length).all fun k => !(isSuit st k) || (pre[k]!).consistent
             (st, if ok then s!"PROPFAIL C10 treatment_threw {o.ret}" else "ok")
           else
-          match invariants pre post cls true noSkip with
-          | some v => finish st o v
-          | none =>
-            let spec : Option String := (List.range pre.length).findSome? fun k =>
+          let spec : Option String := (List.range pre.length).findSome? fun k =>
               let a := pre[k]!; let b := post[k]!
               if !(isSuit st k) then (if a == b then none else some s!"PROPFAIL C10 untreated_cell_changed cell={k}")
               else if coefs[k]! == 0 && a != b && a.totalsOK then some s!"PROPFAIL C10 coef_zero_changed cell={k}"
@@ -566,9 +694,9 @@ def handle (st : State) (cmd : String) (inp obsToks : List String) : State × St
                 if pest then (if pesticideTreatSpec coefs[k]! all a b then none else some s!"PROPFAIL C10 pesticide_share cell={k} coef={coefs[k]!} pre={showCell a} post={showCell b}")
                 else (if simpleTreatSpec coefs[k]! all a b then none else some s!"PROPFAIL C10 removal_share cell={k} coef={coefs[k]!} pre={showCell a} post={showCell b}")
               else none
-            match spec with
-            | some v => finish st o v
-            | none =>
+          match joinVs [invariants pre post cls true noSkip, spec] with
+          | some v => finish st o v
+          | none =>
               let exp := mapSuit st fun k cell =>
                 let r := if pest then cell.pesticideTreat coefs[k]! app else cell.simpleTreat coefs[k]! app
                 match r with | .ok c' => c' | .error _ => cell
@@ -579,33 +707,28 @@ def handle (st : State) (cmd : String) (inp obsToks : List String) : State × St
       | "hp.treatend", coefToks =>
         match ratsFor st coefToks with
         | some coefs =>
-          match invariants pre post reclass false noSkip with
-          | some v => finish st o v
-          | none =>
-            let spec : Option String := (List.range pre.length).findSome? fun k =>
+          let spec : Option String := (List.range pre.length).findSome? fun k =>
               let a := pre[k]!; let b := post[k]!
               if !(isSuit st k) then (if a == b then none else some s!"PROPFAIL C10 untreated_cell_changed cell={k}")
               else if pesticideEndSpec coefs[k]! a b then none else some s!"PROPFAIL C10 pesticide_end cell={k}"
-            match spec with
-            | some v => finish st o v
-            | none => finish st o (cmpCells cmd (mapSuit st fun k cell => cell.pesticideEnd coefs[k]!) post)
+          match joinVs [invariants pre post reclass false noSkip, spec] with
+          | some v => finish st o v
+          | none => finish st o (cmpCells cmd (mapSuit st fun k cell => cell.pesticideEnd coefs[k]!) post)
         | none => (st, "BADLINE")
       -- SurvivalRateAction: rates per cell
       | "hp.survival", rateToks =>
         match ratsFor st rateToks with
         | some rates =>
-          match invariants pre post reclass false noSkip with
-          | some v => finish st o v
-          | none =>
-            let spec : Option String := (List.range pre.length).findSome? fun k =>
+          let spec : Option String := (List.range pre.length).findSome? fun k =>
               let a := pre[k]!; let b := post[k]!
               if !(isSuit st k) then (if a == b then none else some s!"PROPFAIL C12 survival_touched_unsuitable cell={k}")
               else if a.consistent && decide (0 ≤ rates[k]!) then
                 (if survivalSpec rates[k]! a b then none else some s!"PROPFAIL C12 survival cell={k} rate={rates[k]!} pre={showCell a} post={showCell b}")
               else none
-            match spec with
-            | some v => finish st o v
-            | none =>
+          match joinVs [invariants pre post reclass false noSkip, spec] with
+          | some v => finish st o v
+          | none =>
+              -- which cohort a removed host is drawn from is a random choice (implementation detail): replay only
               let bad : Option String := (List.range pre.length).findSome? fun k =>
                 let a := pre[k]!; let b := post[k]!
                 if isSuit st k && decide (rates[k]! < 1) then
@@ -630,18 +753,15 @@ def handle (st : State) (cmd : String) (inp obsToks : List String) : State × St
       | "hp.lethal", thr :: tempToks =>
         match parseRat? thr, ratsFor st tempToks with
         | some thr, some temps =>
-          match invariants pre post reclass false noSkip with
-          | some v => finish st o v
-          | none =>
-            let spec : Option String := (List.range pre.length).findSome? fun k =>
+          let spec : Option String := (List.range pre.length).findSome? fun k =>
               let a := pre[k]!; let b := post[k]!
               if !(isSuit st k) then (if a == b then none else some s!"PROPFAIL C12 lethal_touched_unsuitable cell={k}")
               else if a.consistent then
                 (if lethalSpec (decide (temps[k]! < thr)) a b then none else some s!"PROPFAIL C12 lethal cell={k} temp={temps[k]!} pre={showCell a} post={showCell b}")
               else none
-            match spec with
-            | some v => finish st o v
-            | none =>
+          match joinVs [invariants pre post reclass false noSkip, spec] with
+          | some v => finish st o v
+          | none =>
               let bad : Option String := (List.range pre.length).findSome? fun k =>
                 let a := pre[k]!; let b := post[k]!
                 if isSuit st k && decide (temps[k]! < thr) then
@@ -668,19 +788,19 @@ def handle (st : State) (cmd : String) (inp obsToks : List String) : State × St
             (st, if okPre then s!"PROPFAIL C03 mortality_failed_on_consistent_state {o.ret}"
                  else if modelErr then "ok" else s!"MISMATCH hp.mortality model=ok observed={o.ret}")
           else
-          match invariants pre post cls false (fun k => !(isSuit st k)) with
-          | some v => finish st o v
-          | none =>
-            let spec : Option String := (List.range pre.length).findSome? fun k =>
+          let spec : Option String := (List.range pre.length).findSome? fun k =>
               let a := pre[k]!; let b := post[k]!
               if isSuit st k && a.consistent && decide (0 ≤ rate) && decide (rate ≤ 1) && decide (0 ≤ lag) then
-                (if mortalitySpec rate lag a b then
-                    (if decide (b.died - a.died ≤ a.i) then none else some s!"PROPFAIL C02 died_exceeds_infected cell={k}")
-                 else some s!"PROPFAIL C11 mortality cell={k} rate={rate} lag={lag} pre={showCell a} post={showCell b}")
+                joinVs [
+                  if mortalitySpec rate lag a b then none
+                  else some s!"PROPFAIL C11 mortality cell={k} rate={rate} lag={lag} pre={showCell a} post={showCell b}",
+                  -- C02: hosts dying in a step never exceed the infected that were present
+                  if decide (b.died - a.died ≤ a.i) then none else some s!"PROPFAIL C02 died_exceeds_infected cell={k} died={b.died - a.died} infected={a.i}"]
               else none
-            match spec with
-            | some v => finish st o v
-            | none =>
+          match joinVs [invariants pre post cls false (fun k => !(isSuit st k)), spec] with
+          | some v => finish st o v
+          | none =>
+              -- cells outside the list hold no host in any generated state: their ageing is compared with the model only
               let exp := (List.range pre.length).map fun k =>
                 let a := pre[k]!
                 let a1 := if isSuit st k then (match a.applyMortality rate lag with | .ok c' => c' | .error _ => a) else a
@@ -692,10 +812,7 @@ def handle (st : State) (cmd : String) (inp obsToks : List String) : State × St
       | "hp.stepfwd", [step] =>
         match parseNat? step with
         | some step =>
-          match invariants pre post reclass false noSkip with
-          | some v => finish st o v
-          | none =>
-            let spec : Option String := (List.range pre.length).findSome? fun k =>
+          let spec : Option String := (List.range pre.length).findSome? fun k =>
               let a := pre[k]!; let b := post[k]!
               if st.mt == .si then (if a == b then none else some s!"PROPFAIL C05 si_changed cell={k}")
               else if step < st.latency && a.i != b.i then some s!"PROPFAIL C05 early_transition cell={k}"
@@ -704,9 +821,9 @@ def handle (st : State) (cmd : String) (inp obsToks : List String) : State × St
                 some (s!"PROPFAIL C05 shift cell={k} step={step} pre={showCell a} post={showCell b}" ++
                   (if a.mort.dropLast != b.mort.dropLast then s!" ;; PROPFAIL C11 new_infection_not_in_youngest_cohort cell={k} step={step} pre={showCell a} post={showCell b}" else ""))
               else none
-            match spec with
-            | some v => finish st o v
-            | none =>
+          match joinVs [invariants pre post reclass false noSkip, spec] with
+          | some v => finish st o v
+          | none =>
               let v := cmpCells cmd (pre.map (Cell.stepForward st.mt st.latency step)) post
               finish st o (if v == "ok" then genReplay cmd (baseInputs st) step .stepForward pre post else v)
         | none => (st, "BADLINE")
@@ -720,7 +837,32 @@ def handle (st : State) (cmd : String) (inp obsToks : List String) : State × St
           let events := st.treats.map fun t => (t, t.1.eventAt step)
           let anyEvent := events.any fun e => e.2 != .nothing
           let cls : Nat → Ledger := fun _ => .removal
-          match invariants pre post cls true noSkip with
+          -- C10 by its definition on the observed cells. One event due: every listed cell shows that treatment's
+          -- share (removal: rounded up; pesticide: rounded down into resistant; end: resistant back to susceptible),
+          -- cells outside the list are untouched. Several events due: the observed state is the effect of the due
+          -- treatments applied one after the other in SOME order (the order itself is not stated: model comparison).
+          let due := events.filter fun e => e.2 != .nothing
+          let c10 : Option String :=
+            match due with
+            | [] => none
+            | [((spec, app, coefs), ev)] =>
+              (List.range pre.length).findSome? fun k =>
+                let a := pre[k]!; let b := post[k]!
+                let coef := coefs.getD k 0
+                let all := app == .allInfected
+                if !(isSuit st k) then (if a == b then none else some s!"PROPFAIL C10 untreated_cell_changed cell={k} step={step}")
+                else if !(a.consistent && decide (0 ≤ coef) && decide (coef ≤ 1)) then none
+                else if ev == .apply then
+                  (if coef == 0 && a != b then some s!"PROPFAIL C10 coef_zero_changed cell={k} step={step}"
+                   else if spec.pesticide then
+                     (if pesticideTreatSpec coef all a b then none else some s!"PROPFAIL C10 pesticide_share cell={k} step={step} coef={coef} pre={showCell a} post={showCell b}")
+                   else (if simpleTreatSpec coef all a b then none else some s!"PROPFAIL C10 removal_share cell={k} step={step} coef={coef} pre={showCell a} post={showCell b}"))
+                else (if pesticideEndSpec coef a b then none else some s!"PROPFAIL C10 pesticide_end cell={k} step={step} pre={showCell a} post={showCell b}")
+            | _ =>
+              if due.length > 4 || !(pre.all Cell.consistent) then none
+              else if (permsFuel due.length due).any fun order => order.foldl (fun cells e => applyTreatEvent st cells e.1 e.2) pre == post then none
+              else some s!"PROPFAIL C10 treatments_composed step={step} the state is not the effect of the {due.length} due treatments applied one after the other in any order"
+          match joinVs [invariants pre post cls true noSkip, c10] with
           | some v => finish st o v
           | none =>
             if !anyEvent && post != pre then finish st o s!"PROPFAIL C10 changed_without_scheduled_treatment step={step}"
@@ -774,44 +916,67 @@ def handle (st : State) (cmd : String) (inp obsToks : List String) : State × St
             let soilPct : Option Rat := if soil == "none" then none else parseRat? soil
             let det := det == "1"
             let suitIdx := st.suit.map fun (r, c) => g.idx r c
-            match invariants pre post reclass false noSkip with
+            let inv := invariants pre post reclass false noSkip
+            let genModel := detGenerated g st.suit pre rr w
+            -- C04 predicates on the observed rasters
+            let p1 : Option String := (List.zip suitIdx genModel).findSome? fun (k, gm) =>
+              let cell := pre[k]!
+              if dispO[k]! < 0 || estO[k]! < 0 then some s!"PROPFAIL C02 nonneg dispersers cell={k} disp={dispO[k]!} established={estO[k]!}"
+              else if cell.i ≤ 0 && dispO[k]! != 0 then some s!"PROPFAIL C04 dispersers_without_infection cell={k} disp={dispO[k]!}"
+              else if det && soilPct.isNone && dispO[k]! != gm then some s!"PROPFAIL C04 deterministic_count cell={k} disp={dispO[k]!} expected={gm}"
+              else if det && soilPct.isSome && gm > 0 && dispO[k]! != gm - lround (soilPct.get! * gm) then
+                some s!"PROPFAIL C04 soil_split cell={k} disp={dispO[k]!} generated={gm}"
+              else if estO[k]! < 0 || estO[k]! > dispO[k]! then some s!"PROPFAIL C04 established_le_generated cell={k} est={estO[k]!} disp={dispO[k]!}"
+              else none
+            let totalDisp := sumL (suitIdx.map fun k => dispO[k]!)
+            let sDrop := sumL ((List.range pre.length).map fun k => (pre[k]!).s - (post[k]!).s)
+            let totalEst := sumL (suitIdx.map fun k => estO[k]!)
+            let expOutside := targets.filter fun (r, c) => g.isOutside r c
+            -- C05: in the SEI model arrivals become exposed (youngest cohort), never infected
+            let pSei : Option String :=
+              if st.mt == .sei then (List.range pre.length).findSome? fun k =>
+                let a := pre[k]!; let b := post[k]!
+                if a.e.isEmpty || arrivalsStayExposed a b then none
+                else some (s!"PROPFAIL C05 arrival_not_exposed cell={k} pre={showCell a} post={showCell b}" ++
+                  -- C04: an established disperser turns one susceptible host into an EXPOSED host in the SEI model
+                  s!" ;; PROPFAIL C04 established_host_not_exposed cell={k} pre={showCell a} post={showCell b}")
+              else none
+            let targetsOK := (targets.length : Int) == totalDisp
+            let pTargets : Option String :=
+              if !targetsOK then some s!"PROPFAIL C04 one_target_per_disperser targets={targets.length} dispersers={totalDisp}" else none
+            let pOutside : Option String :=
+              if outO != expOutside then some s!"PROPFAIL C04 outside_recorded observed={outO.length} expected={expOutside.length}" else none
+            let pLedger : Option String :=
+              if soilPct.isNone && sDrop != totalEst then some s!"PROPFAIL C04 ledger susceptible_consumed={sDrop} established={totalEst}"
+              else if soilPct.isSome && sDrop < totalEst then some s!"PROPFAIL C04 ledger susceptible_consumed={sDrop} established={totalEst}"
+              else none
+            -- C04, independent of any draw (without soils): an individual establishes in ITS TARGET cell - a cell
+            -- never loses more susceptible hosts than dispersers were aimed at it - and is counted for ITS ORIGIN
+            -- cell - the established count of a cell never exceeds its dispersers that landed inside the study area
+            let inside := targets.filter fun (r, c) => !(g.isOutside r c)
+            let pTargetCell : Option String :=
+              if soilPct.isSome || !targetsOK then none else
+              (List.range pre.length).findSome? fun k =>
+                let lost := (pre[k]!).s - (post[k]!).s
+                let aimed := (inside.filter fun (r, c) => g.idx r c == k).length
+                if lost < 0 || lost > (aimed : Int) then
+                  some s!"PROPFAIL C04 establishes_in_target_cell cell={k} susceptible_consumed={lost} dispersers_aimed_at_it={aimed}"
+                else none
+            let pOrigin : Option String :=
+              -- (also with soils: dispersers released from the soil land in their own cell and are never counted as established)
+              if !targetsOK || p1.isSome then none else
+              (suitIdx.foldl (fun (acc : List (Int × Int) × Option String) k =>
+                let n := (dispO[k]!).toNat
+                let mine := acc.1.take n
+                let landedInside := (mine.filter fun (r, c) => !(g.isOutside r c)).length
+                (acc.1.drop n,
+                 if acc.2.isSome then acc.2
+                 else if estO[k]! > (landedInside : Int) then
+                   some s!"PROPFAIL C04 established_counted_for_origin cell={k} established={estO[k]!} its_dispersers_inside={landedInside}"
+                 else none)) (targets, none)).2
+            match joinVs [inv, p1, pSei, pTargets, pOutside, pLedger, pTargetCell, pOrigin] with
             | some v => finish st o v
             | none =>
-              let genModel := detGenerated g st.suit pre rr w
-              -- C04 predicates on the observed rasters
-              let p1 : Option String := (List.zip suitIdx genModel).findSome? fun (k, gm) =>
-                let cell := pre[k]!
-                if dispO[k]! < 0 || estO[k]! < 0 then some s!"PROPFAIL C02 nonneg dispersers cell={k} disp={dispO[k]!} established={estO[k]!}"
-                else if cell.i ≤ 0 && dispO[k]! != 0 then some s!"PROPFAIL C04 dispersers_without_infection cell={k} disp={dispO[k]!}"
-                else if det && soilPct.isNone && dispO[k]! != gm then some s!"PROPFAIL C04 deterministic_count cell={k} disp={dispO[k]!} expected={gm}"
-                else if det && soilPct.isSome && gm > 0 && dispO[k]! != gm - lround (soilPct.get! * gm) then
-                  some s!"PROPFAIL C04 soil_split cell={k} disp={dispO[k]!} generated={gm}"
-                else if estO[k]! < 0 || estO[k]! > dispO[k]! then some s!"PROPFAIL C04 established_le_generated cell={k} est={estO[k]!} disp={dispO[k]!}"
-                else none
-              let totalDisp := sumL (suitIdx.map fun k => dispO[k]!)
-              let sDrop := sumL ((List.range pre.length).map fun k => (pre[k]!).s - (post[k]!).s)
-              let totalEst := sumL (suitIdx.map fun k => estO[k]!)
-              let expOutside := targets.filter fun (r, c) => g.isOutside r c
-              -- C05: in the SEI model arrivals become exposed (youngest cohort), never infected
-              let pSei : Option String :=
-                if st.mt == .sei then (List.range pre.length).findSome? fun k =>
-                  let a := pre[k]!; let b := post[k]!
-                  if a.e.isEmpty || arrivalsStayExposed a b then none
-                  else some (s!"PROPFAIL C05 arrival_not_exposed cell={k} pre={showCell a} post={showCell b}" ++
-                    -- C04: an established disperser turns one susceptible host into an EXPOSED host in the SEI model
-                    s!" ;; PROPFAIL C04 established_host_not_exposed cell={k} pre={showCell a} post={showCell b}")
-                else none
-              let p2 : Option String :=
-                if p1.isSome then p1
-                else if pSei.isSome then pSei
-                else if (targets.length : Int) != totalDisp then some s!"PROPFAIL C04 one_target_per_disperser targets={targets.length} dispersers={totalDisp}"
-                else if outO != expOutside then some s!"PROPFAIL C04 outside_recorded observed={outO.length} expected={expOutside.length}"
-                else if soilPct.isNone && sDrop != totalEst then some s!"PROPFAIL C04 ledger susceptible_consumed={sDrop} established={totalEst}"
-                else if soilPct.isSome && sDrop < totalEst then some s!"PROPFAIL C04 ledger susceptible_consumed={sDrop} established={totalEst}"
-                else none
-              match p2 with
-              | some v => finish st o v
-              | none =>
                 let st1 := { st with pest := { disp := dispO, est := estO, outside := st.pest.outside ++ outO } }
                 if soilPct.isSome then finish st1 o "ok"
                 else
@@ -822,14 +987,23 @@ def handle (st : State) (cmd : String) (inp obsToks : List String) : State × St
                   match disperseStep g env st.suit pre p0 targets st.uniforms with
                   | .error e => finish st1 o s!"MISMATCH hp.spread model={errTok e}"
                   | .ok (cells', p', _, _) =>
+                    -- cells outside the list keep their disperser count: implementation detail, model comparison
                     if p'.disp != dispO then finish st1 o "MISMATCH hp.spread dispersers"
                     else if p'.est != estO then
-                      -- with stochastic establishment off the decision is the deterministic rule of C12 itself
-                      -- (suitability > 1 - establishment probability), on fully observed inputs
-                      finish st1 o ((if sto != "1" then s!"PROPFAIL C12 deterministic_establishment established model={p'.est} observed={estO} pEst={pEst} ;; " else "") ++
+                      -- the establishment decision is C12's rule on fully observed inputs: with stochastic
+                      -- establishment off it is "suitability > 1 - establishment probability", with it on the
+                      -- uniforms are dictated by the harness, so it is "establishes iff u < suitability"
+                      finish st1 o ((if sto != "1" then s!"PROPFAIL C12 deterministic_establishment established model={p'.est} observed={estO} pEst={pEst} ;; "
+                                     else s!"PROPFAIL C12 establish_event established with the dictated uniforms (establishes iff u < susceptible / population x weather) expected={p'.est} observed={estO} ;; ") ++
                         s!"MISMATCH hp.spread established model={p'.est} observed={estO}")
                     else if p'.outside != outO then finish st1 o "MISMATCH hp.spread outside"
-                    else finish st1 o (cmpCells cmd cells' post)
+                    else
+                      -- same established counts but another cell paid for them: C04 (its target cell)
+                      let k? := (List.range pre.length).find? fun k => (cells'[k]!).s != (post[k]!).s
+                      match k? with
+                      | some k => finish st1 o (s!"PROPFAIL C04 establishes_in_target_cell cell={k} susceptible_after={(post[k]!).s} expected={(cells'[k]!).s} (establishment decided by C12's rule on the observed inputs) ;; " ++
+                          cmpCells cmd cells' post)
+                      | none => finish st1 o (cmpCells cmd cells' post)
           | _, _, _ => (st, "BADLINE spread-obs")
         | _, _, _, _, _, _, _, _, _ => (st, "BADLINE spread")
       -- overpopulation through the model: threshold leaving drow dcol (deterministic neighbour kernel)
@@ -840,51 +1014,77 @@ def handle (st : State) (cmd : String) (inp obsToks : List String) : State × St
           | none => (st, "BADLINE")
           | some outO =>
             let g : Grid := { rows := st.rows, cols := st.cols }
-            match invariants pre post reclass true noSkip with
-            | some v => finish st o v
-            | none =>
-              let departing := st.suit.filter fun (r, c) => departs thr (pre[g.idx r c]!)
-              -- C17: cells that do not qualify keep their pests; a source loses round(i x share)
-              let stay : Option String := (List.range pre.length).findSome? fun k =>
-                let a := pre[k]!; let b := post[k]!
-                let isDep := departing.any fun (r, c) => g.idx r c == k
-                if !isDep && b.i < a.i then some s!"PROPFAIL C17 departure_rule cell={k} pre={showCell a} post={showCell b}" else none
-              match stay with
+            let inv := invariants pre post reclass true noSkip
+            let departing := st.suit.filter fun (r, c) => departs thr (pre[g.idx r c]!)
+            let isDep (k : Nat) : Bool := departing.any fun (r, c) => g.idx r c == k
+            -- C17: cells that do not qualify keep their pests
+            let stay : Option String := (List.range pre.length).findSome? fun k =>
+              let a := pre[k]!; let b := post[k]!
+              if !(isDep k) && b.i < a.i then some s!"PROPFAIL C17 departure_rule cell={k} pre={showCell a} post={showCell b}" else none
+            -- C17: the source's infected turn susceptible, arrivals turn susceptible hosts infected - nothing else moves
+            let frame : Option String := (List.range pre.length).findSome? fun k =>
+              let a := pre[k]!; let b := post[k]!
+              if { b with s := a.s, i := a.i } != a then
+                some s!"PROPFAIL C17 overpopulation_changed_other_classes cell={k} pre={showCell a} post={showCell b}" else none
+            match parseInt? drT, parseInt? dcT with
+            | some dr, some dc =>
+              -- deterministic neighbour kernel: every destination is known, so C17's sentence fixes the outcome:
+              -- each qualifying cell sends round(infected x share) (its infected turn susceptible), all departures
+              -- are decided on the state before any arrival, at a destination min(arriving, susceptible) establish
+              let targets := departing.map fun (r, c) => (r + dr, c + dc)
+              let expOut := (departing.zip targets).flatMap fun ((r, c), (tr, tc)) =>
+                if g.isOutside tr tc then List.replicate (leavingCount leave (pre[g.idx r c]!)).toNat (tr, tc) else []
+              let pOut : Option String :=
+                if outO != expOut then some s!"PROPFAIL C17 outside_recorded observed={outO.length} expected={expOut.length}" else none
+              let (cells', _, _) := overpopulationStep g st.suit pre { st.pest with outside := [] } thr leave targets
+              let isTarget (k : Nat) : Bool := targets.any fun (r, c) => !(g.isOutside r c) && g.idx r c == k
+              let inDom := pre.all Cell.nonNeg && decide (0 ≤ thr) && decide (0 ≤ leave) && decide (leave ≤ 1)
+              let rule : Option String :=
+                if !inDom || stay.isSome then none else
+                (List.range pre.length).findSome? fun k =>
+                  let a := pre[k]!; let b := post[k]!; let m := cells'[k]!
+                  if b.s == m.s && b.i == m.i then none
+                  else if isTarget k then
+                    some s!"PROPFAIL C17 arrival cell={k} (min(arriving, susceptible) establish, the rest die; departures decided before arrivals) expected s={m.s} i={m.i} pre={showCell a} post={showCell b}"
+                  else if isDep k then
+                    some s!"PROPFAIL C17 leaving_count cell={k} leaves={a.i - b.i} expected={leavingCount leave a} (round(infected x share), the infected turn susceptible) pre={showCell a} post={showCell b}"
+                  else some s!"PROPFAIL C17 departure_rule cell={k} neither source nor destination changed pre={showCell a} post={showCell b}"
+              match joinVs [inv, stay, frame, pOut, rule] with
               | some v => finish st o v
               | none =>
-                match parseInt? drT, parseInt? dcT with
-                | some dr, some dc =>
-                  -- deterministic neighbour kernel: targets are known, exact replay
-                  let targets := departing.map fun (r, c) => (r + dr, c + dc)
-                  let expOut := (departing.zip targets).flatMap fun ((r, c), (tr, tc)) =>
-                    if g.isOutside tr tc then List.replicate (leavingCount leave (pre[g.idx r c]!)).toNat (tr, tc) else []
-                  if outO != expOut then finish st o s!"PROPFAIL C17 outside_recorded observed={outO.length} expected={expOut.length}"
-                  else
-                    let (cells', _, _) := overpopulationStep g st.suit pre { st.pest with outside := [] } thr leave targets
-                    let v := cmpCells cmd cells' post
-                    finish st o (if v == "ok" then genReplay cmd { baseInputs st with overThreshold := thr, overLeaving := leave, overTargets := targets } 0 .overpopulation pre post else v)
-                | _, _ =>
-                  -- uniform natural kernel: destinations are unknown but always inside the study area;
-                  -- pests that leave either establish somewhere or vanish, none is recorded outside
-                  let left := sumL (departing.map fun (r, c) => leavingCount leave (pre[g.idx r c]!))
-                  let infectedBefore := sumL (pre.map (·.i))
-                  let infectedAfter := sumL (post.map (·.i))
-                  -- "D D": deterministic radial kernel (3x3 window): destinations are neighbours of the source or the
-                  -- source itself; those beyond the edge are recorded with their real coordinates
-                  if drT == "D" || drT == "R" then
-                    -- "R R": stochastic radial kernel - any distance; only the bookkeeping is checked
-                    let near (t : Int × Int) : Bool := drT == "R" || departing.any fun (r, c) => (t.1 - r).natAbs ≤ 1 && (t.2 - c).natAbs ≤ 1
-                    if outO.any (fun t => !(g.isOutside t.1 t.2)) then finish st o s!"PROPFAIL C17 outside_recorded inside_cell_recorded_as_outside first={outO.head!}"
-                    else if outO.any (fun t => !(near t)) then finish st o s!"PROPFAIL C17 overpopulation_kernel_scale destination_beyond_window {outO}"
-                    else if (outO.length : Int) > left then finish st o s!"PROPFAIL C17 leaving_count recorded_outside={outO.length} left={left}"
-                    else if infectedAfter > infectedBefore || infectedAfter < infectedBefore - left then
-                      finish st o s!"PROPFAIL C17 leaving_count infected_before={infectedBefore} after={infectedAfter} left={left}"
-                    else finish st o "ok"
-                  else
-                  if !outO.isEmpty then finish st o s!"PROPFAIL C17 uniform_destination_outside recorded={outO.length} first={outO.head!}"
+                let v := cmpCells cmd cells' post
+                finish st o (if v == "ok" then genReplay cmd { baseInputs st with overThreshold := thr, overLeaving := leave, overTargets := targets } 0 .overpopulation pre post else v)
+            | _, _ =>
+              -- uniform natural kernel: destinations are unknown but always inside the study area;
+              -- pests that leave either establish somewhere or vanish, none is recorded outside
+              let left := sumL (departing.map fun (r, c) => leavingCount leave (pre[g.idx r c]!))
+              let infectedBefore := sumL (pre.map (·.i))
+              let infectedAfter := sumL (post.map (·.i))
+              -- "D D": deterministic radial kernel (3x3 window): destinations are neighbours of the source or the
+              -- source itself; those beyond the edge are recorded with their real coordinates
+              -- C17 per cell, whatever the destinations: arrivals only add, so a qualifying cell ends with at
+              -- least infected - round(infected x share)
+              let perCell : Option String := (List.range pre.length).findSome? fun k =>
+                let a := pre[k]!; let b := post[k]!
+                if isDep k && pre.all Cell.nonNeg && decide (0 ≤ leave) && decide (leave ≤ 1) && b.i < a.i - leavingCount leave a then
+                  some s!"PROPFAIL C17 leaving_count cell={k} leaves_at_least={a.i - b.i} expected={leavingCount leave a} pre={showCell a} post={showCell b}"
+                else none
+              let rel : Option String :=
+                if drT == "D" || drT == "R" then
+                  -- "R R": stochastic radial kernel - any distance; only the bookkeeping is checked
+                  let near (t : Int × Int) : Bool := drT == "R" || departing.any fun (r, c) => (t.1 - r).natAbs ≤ 1 && (t.2 - c).natAbs ≤ 1
+                  if outO.any (fun t => !(g.isOutside t.1 t.2)) then some s!"PROPFAIL C17 outside_recorded inside_cell_recorded_as_outside first={outO.head!}"
+                  else if outO.any (fun t => !(near t)) then some s!"PROPFAIL C17 overpopulation_kernel_scale destination_beyond_window {outO}"
+                  else if (outO.length : Int) > left then some s!"PROPFAIL C17 leaving_count recorded_outside={outO.length} left={left}"
                   else if infectedAfter > infectedBefore || infectedAfter < infectedBefore - left then
-                    finish st o s!"PROPFAIL C17 leaving_count infected_before={infectedBefore} after={infectedAfter} left={left}"
-                  else finish st o "ok"
+                    some s!"PROPFAIL C17 leaving_count infected_before={infectedBefore} after={infectedAfter} left={left}"
+                  else none
+                else
+                  if !outO.isEmpty then some s!"PROPFAIL C17 uniform_destination_outside recorded={outO.length} first={outO.head!}"
+                  else if infectedAfter > infectedBefore || infectedAfter < infectedBefore - left then
+                    some s!"PROPFAIL C17 leaving_count infected_before={infectedBefore} after={infectedAfter} left={left}"
+                  else none
+              finish st o ((joinVs [inv, stay, frame, perCell, rel]).getD "ok")
         | _, _, _ => (st, "BADLINE")
       -- host movement through the model: step last sched:r1,c1,r2,c2,n ...  => newlast
       | "hp.movement", stepTok :: lastTok :: rowToks =>
@@ -896,22 +1096,69 @@ def handle (st : State) (cmd : String) (inp obsToks : List String) : State × St
         | some step, some last, some rows, [newLast] =>
           let (apply, cursor) := movementRows (rows.map (·.1)) last step
           let total (l : List Cell) : Int := sumL (l.map Cell.hosts)
-          if toString cursor ≠ newLast then finish st o s!"PROPFAIL C17 movement_once cursor={newLast} expected={cursor}"
-          else if total post != total pre then finish st o s!"PROPFAIL C01 movement_relocates_only before={total pre} after={total post}"
-          else if pre.all Cell.nonNeg && !(post.all Cell.nonNeg) then finish st o "PROPFAIL C02 nonneg movement"
-          else if pre.all Cell.totalsOK && !(post.all Cell.totalsOK) then
-            finish st o ("PROPFAIL C03 totals movement" ++
-              (if pre.all (fun c => decide (c.te = sumL c.e)) && !(post.all fun c => decide (c.te = sumL c.e)) then
-                 " ;; PROPFAIL C05 exposed_host_without_cohort movement (hosts move together with their cohort membership)" else ""))
-          else if pre.all (fun c => c.mortOK && c.totalsOK) && !(post.all Cell.mortOK) then finish st o "PROPFAIL C03 mortality_cohorts movement"
-          else
-            match apply with
-            | [] => finish st o (if post == pre && o.suit == st.suit then "ok" else "PROPFAIL C17 movement_without_scheduled_row")
-            | [k] =>
+          let teOK (c : Cell) : Bool := decide (c.te = sumL c.e)
+          let totalsBroke := pre.all Cell.totalsOK && !(post.all Cell.totalsOK)
+          -- landscape-level verdicts, one per property
+          let general : List (Option String) := [
+            if toString cursor ≠ newLast then some s!"PROPFAIL C17 movement_once cursor={newLast} expected={cursor}" else none,
+            if total post != total pre then some s!"PROPFAIL C01 movement_relocates_only before={total pre} after={total post}" else none,
+            if pre.all Cell.nonNeg && !(post.all Cell.nonNeg) then some "PROPFAIL C02 nonneg movement" else none,
+            if totalsBroke then some "PROPFAIL C03 totals movement" else none,
+            if totalsBroke && pre.all teOK && !(post.all teOK) then
+              some "PROPFAIL C05 exposed_host_without_cohort movement (hosts move together with their cohort membership)" else none,
+            if !totalsBroke && pre.all (fun c => c.mortOK && c.totalsOK) && !(post.all Cell.mortOK) then some "PROPFAIL C03 mortality_cohorts movement" else none]
+          let fin (rowVs : List String) (replay : Unit → String) : State × String :=
+            match general.filterMap id ++ rowVs with
+            | [] => finish st o (replay ())
+            | vs => finish st o (" ;; ".intercalate vs)
+          match apply with
+          | [] => fin (if post == pre && o.suit == st.suit then [] else ["PROPFAIL C17 movement_without_scheduled_row"]) (fun _ => "ok")
+          | [k] =>
+            match (rows[k]!).2 with
+            | [r1, c1, r2, c2, n] =>
+              fin (moveCellVerdicts st pre post r1 c1 r2 c2 n none ++ moveSuitVerdicts st pre o.suit r1 c1 r2 c2 n)
+                  (fun _ => moveReplay st pre post o.suit r1 c1 r2 c2 n none)
+            | _ => (st, "BADLINE")
+          | _ =>
+            -- several rows due in this step: the intermediate states are not observed, so the random class and
+            -- cohort draws cannot be replayed; what C17 fixes without them is judged on the observed end state:
+            -- rows once each in table order, each moving min(requested, hosts present) -> the host total of every
+            -- cell; only cells named by a due row change; class and cohort totals over the landscape are kept;
+            -- every destination that received a host is listed, nothing else joins the list and nothing twice
+            let due : Option (List (Nat × Nat × Int × (Int × Int))) := apply.mapM fun k =>
               match (rows[k]!).2 with
-              | [r1, c1, r2, c2, n] => finish st o (checkMove st pre post o.suit r1 c1 r2 c2 n none)
-              | _ => (st, "BADLINE")
-            | _ => finish st o "ok"
+              | [r1, c1, r2, c2, n] => some (idx st r1 c1, idx st r2 c2, n, (r2, c2))
+              | _ => none
+            match due with
+            | none => (st, "BADLINE")
+            | some due =>
+              let trows := due.map fun d => (d.1, d.2.1, d.2.2.1)
+              let named (k : Nat) : Bool := due.any fun d => d.1 == k || d.2.1 == k
+              let inDom := pre.all (fun c => c.nonNeg && c.totalsOK) && due.all (fun d => decide (0 ≤ d.2.2.1) && d.1 < pre.length && d.2.1 < pre.length)
+              let pre0 := pre.map Cell.hosts
+              let expTot := movementTotals pre0 trows
+              let arrivals := movementArrivals pre0 trows
+              let dests := due.map (·.2.2.2)
+              let added := o.suit.drop st.suit.length
+              let rowVs : List (Option String) := [
+                match (List.range pre.length).find? fun k => !(named k) && pre[k]! != post[k]! with
+                | some k => some s!"PROPFAIL C17 move_touched_other_cells cell={k} rows_due={apply.length}"
+                | none => none,
+                if inDom && post.map Cell.hosts != expTot then
+                  some s!"PROPFAIL C17 move_amount rows_due={apply.length} hosts_per_cell={post.map Cell.hosts} expected={expTot} (each row once, in table order, min(requested, hosts present))"
+                else none,
+                if inDom && !(landClassesConserved pre post) then
+                  some s!"PROPFAIL C17 move_membership rows_due={apply.length} class or cohort totals over the landscape changed"
+                else none,
+                if inDom then
+                  match arrivals.find? fun k => !(o.suit.any fun (r, c) => idx st r c == k) with
+                  | some k => some s!"PROPFAIL C17 target_not_suitable cell={k} rows_due={apply.length}"
+                  | none => none
+                else none,
+                if !(o.suit.take st.suit.length == st.suit && added.all (fun x => dests.contains x && !(st.suit.contains x)) && added.eraseDups == added) then
+                  some s!"PROPFAIL C17 suitable_list before={st.suit} after={o.suit} rows_due={apply.length}"
+                else none]
+              fin (rowVs.filterMap id) (fun _ => "ok")
         | _, _, _, _ => (st, "BADLINE")
       | _, _ => (st, "BADLINE cmd")
 
